@@ -31,7 +31,7 @@ Ltac t3core st k r Hi :=
       | |- context [drop_promises (put ?s ?kk ?r2) ?o ?q] =>
         let Hd := fresh "Hd" in destruct (drop_put_same s kk r2 o q) as [Hd|Hd]
       end;
-  eexists; split;
+  (eexists; split;
   [ t3get
   | split;
     [ cbn; auto; fail
@@ -43,7 +43,7 @@ Ltac t3core st k r Hi :=
                 repeat match goal with
                        | H : s_q _ = _ |- _ => rewrite H
                        | H : s_infl _ = _ |- _ => rewrite H
-                       end; cbn; auto; fail ] ] ] ].
+                       end; cbn; auto; fail ] ] ] ]).
 
 Ltac t3leaf st k r Hi :=
   first [ contra | t3core st k r Hi
@@ -70,7 +70,7 @@ Proof.
     destruct (c_recv_max st <? sid); [use_res1 Hs; discriminate|].
     destruct (iget st sid) as [[k r]|] eqn:Hi.
     + unf. cbn [s_popen s_state set_state] in Hs. peel Hs; use_res1 Hs; try discriminate; t3leaf st k r Hi.
-    + unf. unfold recv_open_id in Hs. cbn [new_rec s_popen s_state set_state] in Hs.
+    + unf. unfold recv_open_id, drop_promises in Hs. cbn [new_rec s_popen s_state set_state s_q fail_promised fold_left] in Hs.
       peel Hs; try use_res1 Hs; try discriminate;
       try (eexists; split; [rewrite ?kget_put_same; reflexivity | split; [cbn; auto; fail | left; cbn; congruence]]);
       (exfalso; cbn in *;
@@ -104,6 +104,25 @@ Proof.
   unfold kget. cbn [c_slab with_ids put with_slab]. rewrite sget_sset_same. reflexivity.
 Qed.
 
+Lemma ids_fail_promised q : forall st, c_ids (fail_promised st q) = c_ids st.
+Proof.
+  induction q as [|f q IH]; intros st; cbn [fail_promised fold_left]; auto.
+  change (c_ids (fail_promised (fail_promised_one st f) q) = c_ids st). rewrite IH.
+  destruct f; cbn [fail_promised_one]; auto. destruct (iget st promised) as [[ck c]|]; auto.
+Qed.
+
+Lemma ids_drop_promises st o q : c_ids (drop_promises st o q) = c_ids st.
+Proof. unfold drop_promises. destruct (has_cleared o); auto. apply ids_fail_promised. Qed.
+
+Lemma iget_drop_put st sid k r r1 o q :
+  iget st sid = Some (k, r) ->
+  iget (drop_promises (put st k r1) o q) sid = Some (k, r1) \/
+  iget (drop_promises (put st k r1) o q) sid = Some (k, failed_promise r1).
+Proof.
+  intros H. unfold iget. rewrite ids_drop_promises, ids_put, (iget_ids _ _ _ _ H).
+  destruct (drop_put_same st k r1 o q) as [Hd|Hd]; rewrite Hd; auto.
+Qed.
+
 (* the reset the connection owes for a stream error handed up to it *)
 Theorem poll2_reset_resets st sid code quota can nk st' outs :
   step st (LPoll2Reset sid code quota can nk) = Ok st' outs ->
@@ -118,8 +137,12 @@ Proof.
   destruct (iget st sid) as [[k r]|] eqn:Hi.
   - destruct quota; cbn [negb] in Hs.
     + right. split; auto. unfold send_reset_core, enqueue_reset_expiration, queue_frame, clear_queue, res1 in Hs.
-      peel Hs; use_res1 Hs; (split; [reflexivity|]); exists k; eexists;
-        (split; [eapply iget_put; eauto|]); (split; [cbn; auto; fail|]);
+      peel Hs; use_res1 Hs; (split; [reflexivity|]); exists k;
+        match goal with
+        | |- context [drop_promises (put ?s ?kk ?r2) ?oo ?qq] =>
+          let Hd := fresh "Hd" in destruct (iget_drop_put s sid kk r r2 oo qq Hi) as [Hd|Hd]
+        end;
+        (eexists; (split; [exact Hd|]); (split; [cbn; auto; fail|]);
         first [ left; reflexivity
               | right; exists r; split; auto; left; assumption
               | right; exists r; split; auto; right; unfold closed_full;
@@ -127,7 +150,7 @@ Proof.
                        | H : s_q _ = _ |- _ => rewrite H
                        | H : s_infl _ = _ |- _ => rewrite H
                        end; assumption
-              | exfalso; repeat match goal with H : context [_ && false] |- _ => rewrite andb_false_r in H end; congruence ].
+              | exfalso; repeat match goal with H : context [_ && false] |- _ => rewrite andb_false_r in H end; congruence ]).
     + left. use_res1 Hs. auto.
   - destruct (kget _ nk); [discriminate|]. destruct quota; cbn [negb] in Hs.
     + right. split; auto. unfold send_reset_core, enqueue_reset_expiration, queue_frame, clear_queue, res1 in Hs.
